@@ -10,4 +10,6 @@ NOT_DECIDED = "the per-tick multiset of entered-not-exited frames over arbitrary
 
 
 def check(ctx):
+    _framing.per_tick_over_actives(ctx)
+    _framing.outline_state(ctx)
     _framing.transition_order(ctx)
